@@ -25,6 +25,7 @@ import traceback
 
 ROOT = os.path.dirname(os.path.dirname(os.path.abspath(__file__)))
 REPO = os.environ.get("VERIF_REPO", "/repo")
+OUT = os.environ.get("VERIF_OUT", ROOT)  # evidence/ and replays/ are written here (scratch runs against seeded copies)
 
 
 # --------------------------------------------------------------------------------------
@@ -132,14 +133,14 @@ def match_known(known, prop, obligation, case):
 
 
 def write_replay(prop, obligation, payload) -> str:
-    d = os.path.join(ROOT, "replays", prop)
+    d = os.path.join(OUT, "replays", prop)
     os.makedirs(d, exist_ok=True)
     h = hashlib.sha256(canon(payload.get("case", payload.get("solver_output", ""))).encode()).hexdigest()[:8]
     safe = obligation.replace("/", "_").replace(" ", "_")[:80]
     path = os.path.join(d, f"{safe}-{h}.json")
     with open(path, "w") as f:
         json.dump(payload, f, indent=1, default=str)
-    return os.path.relpath(path, ROOT)
+    return os.path.relpath(path, OUT)
 
 
 def run_bounded(prop, tier, seed, budget_s, extra_cases=()):
@@ -205,6 +206,14 @@ def main(argv=None):
 
     if a.replay:
         return replay(prop, a.replay, known)
+    # replay files of earlier runs of this property are stale: start clean
+    import glob
+
+    for f in glob.glob(os.path.join(OUT, "replays", prop, "*.json")):
+        try:
+            os.remove(f)
+        except OSError:
+            pass
 
     violations = []  # dict(obligation, case, detail, replay)
     known_hits = []
@@ -314,6 +323,10 @@ def main(argv=None):
         print(f"  failed obligation: {v['obligation']}: {str(v['detail'])[:400]}")
         print(f"VIOLATION property={prop} replay={path}{tail}")
 
+    if os.environ.get("VERIF_DUMP_VIOLATIONS"):
+        with open(os.environ["VERIF_DUMP_VIOLATIONS"], "w") as f:
+            json.dump([dict(obligation=v["obligation"], case=v.get("case"), detail=str(v["detail"])[:300]) for v in violations], f, indent=0, default=str)
+
     # ---- 5. evidence --------------------------------------------------------------------
     bmod = b["module"] if b else None
     pmod = proofs["module"] if proofs else None
@@ -349,8 +362,8 @@ def main(argv=None):
         assumptions=list(pv["assumptions"]) + list(getattr(bmod, "ASSUMPTIONS", [])),
         wall_s=round(time.time() - t_start, 2), violations=nviol,
     )
-    os.makedirs(os.path.join(ROOT, "evidence"), exist_ok=True)
-    with open(os.path.join(ROOT, "evidence", f"{prop}.json"), "w") as f:
+    os.makedirs(os.path.join(OUT, "evidence"), exist_ok=True)
+    with open(os.path.join(OUT, "evidence", f"{prop}.json"), "w") as f:
         json.dump(ev, f, indent=1, default=str)
 
     print(f"[{prop}] tier={tier} proof obligations {pv['discharged']}/{pv['obligations']} discharged, "
@@ -383,7 +396,7 @@ def _repo_head():
 
 def replay(prop, path, known):
     if not os.path.isabs(path) and not os.path.exists(path):
-        path = os.path.join(ROOT, path)
+        path = os.path.join(OUT, path)
     with open(path) as f:
         payload = json.load(f)
     ob = payload["obligation"]
